@@ -774,3 +774,62 @@ def context_chain(ctx, f, t):
         cur_t = _subst(cur_t, mapping)
         cur_f = caller
         yield cur_f, cur_t
+
+
+# ------------------------------------------------------------ values by calling context
+def _arg_node(ctx, pf, call: ast.Call, pname: str):
+    """AST node of the argument bound to parameter ``pname`` of ``pf`` at ``call`` (None: left at its default / unknown)."""
+    if isinstance(pf.node, ast.Lambda):
+        return None
+    a = pf.node.args
+    names = [x.arg for x in a.posonlyargs + a.args]
+    if pf.cls is not None and names and not pf.is_static and len(call.args) + len(call.keywords) < len(names) + len(a.kwonlyargs) + 1:
+        # a bound call (`self.m(...)`, or through a local holding the bound method): `self` is not among the arguments
+        if not (len(call.args) == len(names)):
+            names = names[1:]
+    if any(isinstance(x, ast.Starred) for x in call.args):
+        return None
+    if pname in names and names.index(pname) < len(call.args):
+        return call.args[names.index(pname)]
+    for k in call.keywords:
+        if k.arg == pname:
+            return k.value
+    return None
+
+
+def _pc_literals(ctx, f, stmt):
+    out = []
+    for t, pol in path_condition(ctx, f, stmt):
+        g = bool_nnf(t if pol else ("unary", "not", t))
+        for it in (g[1] if g[0] == "and" else [g]):
+            if it[0] == "lit":
+                out.append(norm_cond(it[1]) if it[2] else (lambda ap: (ap[0], not ap[1]))(norm_cond(it[1])))
+    return tuple(out)
+
+
+def context_cases(ctx, f, expr: ast.AST, depth: int = 0):
+    """[(conditions, leaf)] for the value of ``expr`` like gated_values, but a leaf that is a parameter (of ``f`` or of
+    an enclosing function) is followed to the argument at every call site, together with the path condition of that
+    call site: `g(1 if c else n)` and `if c: g(1) else: g(n)` give the same cases for the parameter of g."""
+    from .model import parent
+
+    out = []
+    for conds, leaf in gated_values(ctx, f, expr):
+        if leaf[0] == "param" and depth < 3:
+            pf = ctx.repo.funcs.get(leaf[1])
+            expanded = False
+            for caller, call in (ctx.cg.callers(pf) if pf is not None else []):
+                argn = _arg_node(ctx, pf, call, leaf[2])
+                if argn is None:
+                    continue
+                st = call
+                while parent(st) is not None and not isinstance(st, ast.stmt):
+                    st = parent(st)
+                pc = _pc_literals(ctx, caller, st) + tuple(_enclosing_conds(ctx, caller, call))
+                for c2, l2 in context_cases(ctx, caller, argn, depth + 1):
+                    out.append((tuple(conds) + pc + tuple(c2), l2))
+                    expanded = True
+            if expanded:
+                continue
+        out.append((tuple(conds), leaf))
+    return _feasible(out)
